@@ -907,6 +907,13 @@ namespace ip {
 			}
 			case aux::packet::type_t::syn_ack:
 			{
+				// the connect was cancelled while the handshake was in flight:
+				// there is nobody to tell, and no connection
+				if (!m_connect_handler)
+				{
+					m_channel.reset();
+					return;
+				}
 				assert(m_connect_handler);
 				boost::system::error_code ec;
 				post(m_io_service, aux::make_malloc(std::bind(std::move(m_connect_handler), ec)));
